@@ -25,6 +25,23 @@ class StmtMixin:
 
     def run(self, node):
         self.cur_line = getattr(node, 'lineno', self.cur_line)
+        c = self.contract
+        if c is not None and c.lemmas and self.qualname == c.qualname:
+            # intermediate assertions (proof hints): proved here, then assumed.
+            # Anchored by the text of the statement they precede.
+            src = None
+            for lem in c.lemmas:
+                if 'before' in lem:
+                    src = src or ast.unparse(node).split('\n')[0]
+                    if src == lem['before']:
+                        from .contracts import prove
+                        for field, expr in lem.get('ghost', []):
+                            # ghost assignment: g.<field> := <expr> (ghost state only)
+                            self.path.write_field(self.lookup('g'), field, self.spec_eval(expr, None, self.old_store))
+                        for lab, clause in lem.get('prove', {}).items():
+                            f = self.spec_bool(clause, None, self.old_store)
+                            prove(self, 'lemma.' + lab, f)
+                            self.path.assume(f, tag=lab)
         m = getattr(self, 'st_' + type(node).__name__, None)
         if m is None:
             raise Unsupported('statement %s at line %s' % (type(node).__name__, node.lineno))
@@ -163,8 +180,13 @@ class StmtMixin:
             if info[0] == 'list':
                 ln = self.path.read_field(base, 'len').e
                 i = self.index_in(self.force(idx), ln)
+                from .builtins_impl import cnt_get, cnt_add
                 items = self.path.read_field(base, 'items')
                 v = coerce(self.path, v, info[1])
+                old = items.shape.select(items, SV(IntS, i))
+                self.path.assume(cnt_get(self, base, old).e >= 1)
+                cnt_add(self, base, old, -1)
+                cnt_add(self, base, v, 1)
                 self.path.write_field(base, 'items', items.shape.store(items, SV(IntS, i), v))
                 return
             if info[0] == 'dict':
@@ -223,8 +245,12 @@ class StmtMixin:
 
     def list_delete_at(self, base, i):
         info = CONTAINERS[base.shape.cls]
+        from .builtins_impl import cnt_get, cnt_add
         ln = self.path.read_field(base, 'len').e
         items = self.path.read_field(base, 'items')
+        gone = items.shape.select(items, SV(IntS, i))
+        self.path.assume(cnt_get(self, base, gone).e >= 1)   # an element of the list occurs in it
+        cnt_add(self, base, gone, -1)
         new = items.shape.fresh('del')
         k = z3.Int(fresh_name('k'))
         kk = SV(IntS, k)
@@ -232,6 +258,9 @@ class StmtMixin:
         hi = self.eq(new.shape.select(new, kk), items.shape.select(items, SV(IntS, k + 1)))
         self.path.assume(z3.ForAll([k], z3.Implies(z3.And(k >= 0, k < i), lo)))
         self.path.assume(z3.ForAll([k], z3.Implies(z3.And(k >= i, k < ln - 1), hi)))
+        # (and, for goals about the old list: every old element other than the removed one is still there)
+        back = self.eq(items.shape.select(items, kk), new.shape.select(new, SV(IntS, k - 1)))
+        self.path.assume(z3.ForAll([k], z3.Implies(z3.And(k > i, k < ln), back)))
         self.path.write_field(base, 'items', new)
         self.path.write_field(base, 'len', SV(IntS, ln - 1))
 
@@ -342,10 +371,20 @@ class StmtMixin:
     def st_With(self, node):
         # locks / conditions: acquire..release around the body.  Ghost held
         # counters are not modelled; the managers are evaluated for effects.
+        exits = []
         for item in node.items:
             mgr = self.ev(item.context_expr)
             self.enter_with(mgr, item)
-        self.run_block(node.body)
+            decl = self.world.classes.get(mgr.shape.cls) if isinstance(mgr, SRef) else None
+            if decl is not None and 'with_enter' in decl.methods:
+                # declared lock-like object: acquire on entry, release on every way out
+                decl.methods['with_enter'](self, [mgr], {})
+                exits.append((decl.methods['with_exit'], mgr))
+        try:
+            self.run_block(node.body)
+        finally:
+            for fn, mgr in reversed(exits):
+                fn(self, [mgr], {})
 
     def enter_with(self, mgr, item):
         if item.optional_vars is not None:
